@@ -242,6 +242,13 @@ func runSec(it *SecItem, ks *sut.KeySet, workRoot string) (res SecResult) {
 				add(kind, "%s: restoring %s returned %s without error; the writer never signed that content under this name", what, p, describe(got))
 				return true
 			}
+			// ... and it must be the content signed under the ACCEPTED header (whose size Stat reports)
+			if rerr == nil {
+				if info, err := ri.FS.Stat(p); err == nil && info.Size() != int64(len(got)) {
+					add(kind, "%s: restoring %s returned %d bytes without error, the accepted (signed) header says %d bytes", what, p, len(got), info.Size())
+					return true
+				}
+			}
 		}
 		return true
 	}
@@ -380,6 +387,16 @@ func runSec(it *SecItem, ks *sut.KeySet, workRoot string) (res SecResult) {
 		c := other
 		if err := signature.SignHeader(&c, true, it.Cfg.Signature, otherWrite.Identity); err == nil {
 			forgeries = append(forgeries, forgery{"signed-by-another-key", seal(&c)})
+		}
+	}
+	// a signed content record replayed with its data cut away (outer size 0): the header is genuine,
+	// the restore must fail rather than return an empty file
+	for _, r := range scan.Recs {
+		if r.Size > 0 && r.OuterHdr != nil {
+			h := *r.OuterHdr
+			h.Size = 0
+			forgeries = append(forgeries, forgery{"signed-record-replayed-without-its-data", &h})
+			break
 		}
 	}
 	for _, f := range forgeries {
